@@ -80,7 +80,8 @@ def reject_fmt(st, where):
         elif self_attr(e, '_value'):
             out.append('FBound')
         elif same(e, 'len(value)') or same(e, 'type(value)') or same(e, 'self._pattern.pattern') or same(e, 'self._enum') \
-                or self_attr(e, '_length'):
+                or self_attr(e, '_length') or same(e, 'safe_str(value)') or same(e, 'safe_str(self._value)'):
+            # safe_str: the candidate repair of finding C14-K9 (a str() that never raises)
             out.append('FOther')
         else:
             bad(f'{where}: the message of the rejection formats an expression the model does not know: {ast.unparse(e)}')
